@@ -417,6 +417,33 @@ class ImplMgr:
                 self.m.freeze_tree()
             elif kind == "unfreeze":
                 self.m.unfreeze_tree()
+            elif kind == "clonekeep":
+                # a clone that the user KEEPS (oracle-only histories: the model's clone is compared and dropped)
+                self.__dict__.setdefault("kept", []).append(self.m.clone())
+            elif kind == "cloneop":
+                # a call on a kept clone through the manager's own methods (assignments through refs go to ref._manager,
+                # i.e. to the original; the clone is a manager of its own over the same containers)
+                c = self.__dict__.setdefault("kept", [])[op["i"]]
+                call = op["call"]
+                if call == "unregister":
+                    tid = op["id"]
+                    c.unregister(tid if isinstance(tid, str) else self.ref(tid))
+                elif call == "set":
+                    c.set_value(self.ref(op["path"]), float("nan") if op["value"] == "nan" else op["value"])
+                elif call == "setexpr":
+                    c.set_value(self.ref(op["path"]), self.build(op["expr"]))
+                elif call == "load":
+                    c.load([(str(self.ref(p)), str(self.build(t))) for p, t in op["pairs"]], overwrite=op["overwrite"])
+                elif call == "refresh":
+                    c.refresh()
+                elif call == "cleanup":
+                    c.cleanup()
+                elif call == "verify":
+                    import io, contextlib
+                    with contextlib.redirect_stdout(io.StringIO()):
+                        c.verify()
+                else:
+                    raise ValueError("unknown call on a kept clone " + str(call))
             elif kind == "load":
                 # the textual side of load() is C11's; here the pairs are printed by the library itself
                 pairs = [(str(self.ref(p)), str(self.build(t))) for p, t in op["pairs"]]
